@@ -265,7 +265,17 @@ func ruleEnvelopeErrorOnlyFromJSON(c *chk.Ctx) {
 		ok := false
 		for _, cd := range ir.CondsAt(r.Block()) {
 			if x, eq, isN := ir.NilCompare(cd.V); isN && eq != cd.Truth {
-				if call, isCall := x.(*ssa.Call); isCall && ir.IsCallTo(&call.Call, "encoding/json.Unmarshal") {
+				// the value tested is json.Unmarshal's result (on every way it can be produced:
+				// one error variable may collect the results of the array and the single decode)
+				all, some := true, false
+				for _, src := range c.P.SourcesStop(x, func(v ssa.Value) bool { _, isCall := v.(*ssa.Call); return isCall }) {
+					if call, isCall := src.(*ssa.Call); isCall && ir.IsCallTo(&call.Call, "encoding/json.Unmarshal") {
+						some = true
+					} else {
+						all = false
+					}
+				}
+				if all && some {
 					ok = true
 				}
 			}
@@ -315,7 +325,7 @@ func ruleWatcherReportsCtxErr(c *chk.Ctx, owner string) {
 		found := false
 		isCtxErr := func(v ssa.Value) bool {
 			inv, isCall := ir.NormCell(v).(*ssa.Call)
-			return isCall && inv.Call.IsInvoke() && inv.Call.Method.Name() == "Err" && c.P.Canon(inv.Call.Value) == ctxParam
+			return isCall && inv.Call.IsInvoke() && inv.Call.Method.Name() == "Err" && (c.P.Canon(inv.Call.Value) == ctxParam || ir.SameValue(c.P.Canon(inv.Call.Value), ctxParam))
 		}
 		c.P.ExtInstrs(f, func(ins ssa.Instruction) {
 			call, ok := ins.(*ssa.Call)
@@ -538,6 +548,9 @@ func ruleArrayTranslateTotal(c *chk.Ctx) {
 					continue
 				}
 				if x, _, ok := ir.NilCompare(cd.V); ok {
+					if x.Type().String() == "error" {
+						continue // an error check passed on the way selects no element
+					}
 					if _, isCall := x.(*ssa.Call); isCall {
 						continue // the array parse succeeded
 					}
